@@ -337,6 +337,14 @@ def _summarise(case):
             tr, _how = gen.derive(tr, (t, k), allow=["copy", "extract", "mod1", "concat", "gt0", "lt0"])
             tr.uid = uid
         trs.append(tr)
+    if len(trs[0]) >= 2 and (len(case["tracks"]) + len(case["tracks"][0])) % 4 == 0:
+        # a derived collection in which some observation OBJECTS are reachable through two tracks: a track next to one
+        # of its extracts (extraction shares the observations, as splitting on indices does at the cutting points).
+        # Every track's observations count.
+        part = trs[0].extract(0, max(0, len(trs[0]) // 2))
+        part.uid = trs[0].uid
+        trs.append(part)
+        M.CTX.count("collection_with_shared_observation_objects")
     col = TrackCollection(trs)
     # the order in which the aggregates are requested is part of the configuration: a permutation per case
     import random
@@ -376,6 +384,7 @@ def run_case(case, ctx):
         return violated({"what": "summarize raised on an in-domain collection", "raised": out,
                          "res": res, "margin": margin, "tracks": tracks}, sig, True, sorted(cls))
     raster, trs, col = out
+    nobs = sum(t.size() for t in trs)          # the collection may hold one more (derived) track than the case lists
     seen = list(SEEN)
     cls.add("first_requested:" + ORDER[0])
     if ORDER.index("co_median") < len(ORDER) - 1:
